@@ -68,4 +68,28 @@ theorem C09_double_push_counterexample :
     -- three Heun steps = six pushes of the values 0,0,1,1,2,2
     (bufAfter 4 (fun i => xs (i / 2)) 6)[3]? = some 1 ∧ (bufAfter 4 xs 3)[3]? = some 0 := by decide +kernel
 
+/-! ### vectorized sources: one buffer row per unit, read by `index_2d(buffer, source_idx, delays)` -/
+
+/-- the 2-D buffer of a vector-valued source after the calls for steps `0 … k-1`: row `u` is the ring buffer of unit `u` -/
+def bufAfterV (n units : Nat) (xs : Nat → Nat → Rat) (k : Nat) : List (List Rat) :=
+  (List.range units).map (fun u => bufAfter n (xs u) k)
+
+/-- `buffer[source_idx[i], delays[i]]` -/
+def read2d (bufs : List (List Rat)) (src d : Nat) : Option Rat := (bufs[src]?).bind (·[d]?)
+
+/-- **Every edge of a vectorized source reads its own unit at its own delay**: slot `(u, d)` of the 2-D buffer holds the value unit `u`
+had `d` steps ago (zero before the start), for every number of units, buffer width, step and source sequence. -/
+theorem C09_vector_read (n units : Nat) (xs : Nat → Nat → Rat) (k u d : Nat) (hu : u < units) (hd : d < n) :
+    read2d (bufAfterV n units xs (k + 1)) u d = some (if d ≤ k then xs u (k - d) else 0) := by
+  unfold read2d bufAfterV
+  rw [List.getElem?_map, List.getElem?_range hu]
+  simp only [Option.map_some, Option.bind_some]
+  exact C09_ring_invariant n (xs u) k d hd
+
+/-- Why the unit index matters: reading the whole column `buffer[:, d]` hands slot `i` the delayed value of unit `i`, which is the source of
+edge `i` only if the edges are declared in unit order (two units, edges declared as (1, 0): edge 0 must read unit 1). -/
+theorem C09_column_shortcut_counterexample :
+    let xs : Nat → Nat → Rat := fun u k => (10 * u + k : Nat)
+    read2d (bufAfterV 3 2 xs 4) 1 2 = some 11 ∧ read2d (bufAfterV 3 2 xs 4) 0 2 = some 1 := by decide +kernel
+
 end PyRates.Delay
